@@ -211,7 +211,14 @@ Record tb_case := {
   tb_rows : list row;     (* implementation: the tree matrix *)
   tb_nwk : ntree;         (* implementation: parsed Newick, distances=False *)
   tb_nwkd : ntree;        (* implementation: parsed Newick, distances=True (lengths as printed) *)
-  tb_gen : option tree    (* generating tree (ultrametric for UPGMA, additive for NJ); None: arbitrary matrix *)
+  tb_gen : option tree;   (* generating tree (ultrametric for UPGMA, additive for NJ); None: arbitrary matrix *)
+  tb_t2n : ntree;         (* implementation: _tree2nwk(tree matrix, taxa, distances=False), parsed *)
+  tb_t2nd : ntree;        (* implementation: _tree2nwk(tree matrix, taxa, distances=True), parsed *)
+  tb_objl : list ntree;   (* tree OBJECTS with lengths, read structurally (children, Name, Length):
+                             matrix2tree(distances=True), LoadTree(treestring=the builder's Newick),
+                             LoadTree(treestring=str(the first object)) *)
+  tb_objt : list ntree;   (* tree objects without lengths: matrix2tree(distances=False) *)
+  tb_tips : list (list nat)  (* getTipNames() and .taxa of every tree object, names mapped to taxon indices *)
 }.
 
 Definition model_rows (c : tb_case) : list row :=
@@ -223,6 +230,9 @@ Definition model_rows (c : tb_case) : list row :=
 Definition is_upgma (c : tb_case) : bool :=
   match tb_algo c with AUpgma => true | ANj => false end.
 
+(* lengths read from a tree object are the printed decimals parsed to doubles: allow 2^-40 on top *)
+Definition obj_slack : Q := 1 # 1099511627776.
+
 Definition tb_case_code (c : tb_case) : nat :=
   let n := length (tb_mat c) in
   let rows := tb_rows c in
@@ -231,15 +241,23 @@ Definition tb_case_code (c : tb_case) : nat :=
          && match built with
             | Some t => nt_eqb false 0 (nt_of_tree t) (tb_nwk c)
                         && nt_eqb true (1 # 200) (nt_of_tree t) (tb_nwkd c)
+                        && nt_eqb false 0 (nt_of_tree t) (tb_t2n c)
+                        && nt_eqb true (1 # 200) (nt_of_tree t) (tb_t2nd c)
+                        && forallb (nt_eqb true ((1 # 200) + obj_slack) (nt_of_tree t)) (tb_objl c)
+                        && forallb (nt_eqb false 0 (nt_of_tree t)) (tb_objt c)
             | None => false
             end)
   + bit 1 (valid_rowsb n rows
            && nt_binaryb (tb_nwk c) && permb n (nt_leaves (tb_nwk c))
            && nt_binaryb (tb_nwkd c) && permb n (nt_leaves (tb_nwkd c))
+           && forallb (fun o => nt_binaryb o && permb n (nt_leaves o))
+                      (tb_t2n c :: tb_t2nd c :: tb_objl c ++ tb_objt c)
+           && forallb (permb n) (tb_tips c)
            && match built with Some t => permb n (leaves t) | None => false end)
   + bit 2 (negb (is_upgma c)
            || (match built with Some t => ultrab (tb_eps c) t | None => false end
-               && nt_ultrab (tb_eps c) (tb_nwkd c)))
+               && nt_ultrab (tb_eps c) (tb_nwkd c) && nt_ultrab (tb_eps c) (tb_t2nd c)
+               && forallb (nt_ultrab (tb_eps c + obj_slack)) (firstn 1 (tb_objl c))))
   + bit 3 (match tb_gen c with
            | Some g => negb (is_upgma c) || clades_eqb (nt_of_tree g) (tb_nwk c)
            | None => true
@@ -251,6 +269,8 @@ Definition tb_case_code (c : tb_case) : nat :=
   + bit 5 (match tb_gen c, built with
            | Some g, Some t => pathsumsb (tb_eps c) (tb_mat c) t
                                && nt_pathsumsb (tb_eps c) (tb_mat c) (tb_nwkd c)
+                               && nt_pathsumsb (tb_eps c) (tb_mat c) (tb_t2nd c)
+                               && forallb (nt_pathsumsb (tb_eps c + obj_slack) (tb_mat c)) (firstn 1 (tb_objl c))
            | Some g, None => false
            | None, _ => true
            end)
